@@ -3,6 +3,7 @@ package props
 import (
 	"fmt"
 	"os"
+	"os/exec"
 	"path/filepath"
 	"runtime"
 	"runtime/debug"
@@ -184,6 +185,7 @@ func c09Gen(g *core.Gen) {
 	}
 	g.Emit(&c09Case{Kind: "env"})
 	for _, p := range paths {
+		g.Emit(&c09Case{Kind: "concurrent", Path: p})
 		g.Emit(&c09Case{Kind: "refused", Path: p})
 		g.Emit(&c09Case{Kind: "lenseq", Path: p})
 		for lo := 0; lo < 65536; lo += 16384 {
@@ -208,6 +210,99 @@ func c09Gen(g *core.Gen) {
 // c09Probe is the body of "vcheck aux c09-probe": in a fresh process, every constant x a 34-byte buffer (one SSSE3 block
 // plus a tail word) x {Mul, MulAndAdd} on every path of this build, each against the reference. Prints "ok" or the first
 // wrong product.
+// c09Concurrent is "vcheck aux c09-concurrent <path>": eight goroutines, released together, call both kernels of one
+// dispatch path on buffers of their own (what one call computes depends on its arguments only - also while other calls
+// run). Every answer is compared with the reference; the race-detector build of this binary reports whatever the calls
+// share behind the scenes. Prints "ok" or what went wrong.
+func c09Concurrent(args []string) int {
+	if len(args) < 1 {
+		return 2
+	}
+	k, why := c09Path(args[0])
+	if k == nil {
+		fmt.Println("ok (" + why + ")")
+		return 0
+	}
+	defer k.restore()
+	lens := []int{2, 30, 34, 4096, 5000, 70000}
+	start := make(chan struct{})
+	errs := make(chan string, 8)
+	for w := 0; w < 8; w++ {
+		go func(w int) {
+			<-start
+			for rep := 0; rep < 40; rep++ {
+				L := lens[(w+rep)%len(lens)]
+				cc := uint16(0x1001*(w+1) + rep*77)
+				in, out, prior := make([]byte, L), make([]byte, L), make([]byte, L)
+				for i := range in {
+					in[i] = byte(i*7 + w*31 + rep)
+					prior[i] = byte(i*13 + w + 5*rep)
+				}
+				copy(out, prior)
+				k.mulAdd(gf2p16.T(cc), in, out)
+				for i := 0; i+1 < L; i += 2 {
+					want := gf16.Mul(cc, uint16(in[i])|uint16(in[i+1])<<8) ^ (uint16(prior[i]) | uint16(prior[i+1])<<8)
+					if got := uint16(out[i]) | uint16(out[i+1])<<8; got != want {
+						errs <- fmt.Sprintf("goroutine %d round %d: multiply-and-add, c=%#x len=%d word %d: got %#x want %#x", w, rep, cc, L, i/2, got, want)
+						return
+					}
+				}
+				k.mul(gf2p16.T(cc), in, out)
+				for i := 0; i+1 < L; i += 2 {
+					want := gf16.Mul(cc, uint16(in[i])|uint16(in[i+1])<<8)
+					if got := uint16(out[i]) | uint16(out[i+1])<<8; got != want {
+						errs <- fmt.Sprintf("goroutine %d round %d: multiply, c=%#x len=%d word %d: got %#x want %#x", w, rep, cc, L, i/2, got, want)
+						return
+					}
+				}
+			}
+			errs <- ""
+		}(w)
+	}
+	close(start)
+	bad := ""
+	for w := 0; w < 8; w++ {
+		if e := <-errs; e != "" && bad == "" {
+			bad = e
+		}
+	}
+	if bad != "" {
+		fmt.Println(bad)
+		return 0
+	}
+	fmt.Println("ok")
+	return 0
+}
+
+func c09ConcurrentRun(c *c09Case, r *core.Rec) {
+	bins := []string{os.Args[0]}
+	if rb := os.Getenv("VERIF_BIN_RACE"); rb != "" {
+		bins = append(bins, rb)
+	} else {
+		r.Note("concurrent-callers probe: no race-detector build available")
+	}
+	n := 0
+	for rep := 0; rep < 2; rep++ {
+		for _, b := range bins {
+			cmd := exec.Command(b, "aux", "c09-concurrent", c.Path)
+			cmd.Env = append(os.Environ(), "GORACE=halt_on_error=1 exitcode=66")
+			out, err := cmd.CombinedOutput()
+			n++
+			if so := strings.TrimSpace(string(out)); err != nil || !strings.HasPrefix(so, "ok") {
+				if len(so) > 1500 {
+					so = so[:1500]
+				}
+				r.Violatef("kernel-result-depends-on-concurrent-calls", "path %s, eight goroutines calling the kernels on buffers of their own (%s build): %v\n%s", c.Path, map[bool]string{true: "race-detector", false: "normal"}[b != os.Args[0]], err, so)
+				return
+			}
+		}
+	}
+	r.AddStates(n)
+	r.AddTransitions(n * 8 * 40 * 2)
+	r.Outcome("concurrent " + c.Path)
+	r.NontrivialCase()
+}
+
 func c09Probe(args []string) int {
 	paths := []string{"dispatch-ssse3", "dispatch-nossse3", "dispatch", "generic", "platformle", "wordslice"}
 	const L = 34
@@ -533,6 +628,10 @@ func c09Run(ci interface{}, r *core.Rec) {
 		c09LenSeqRun(c, r)
 		return
 	}
+	if c.Kind == "concurrent" {
+		c09ConcurrentRun(c, r)
+		return
+	}
 	if c.Kind == "env" {
 		c09EnvRun(r)
 		return
@@ -721,11 +820,12 @@ func c09Run(ci interface{}, r *core.Rec) {
 
 func init() {
 	core.Aux["c09-probe"] = c09Probe
+	core.Aux["c09-concurrent"] = c09Concurrent
 	core.Register(&core.Prop{
 		ID:      "C09",
 		AltArch: true,
 		Level:   "model_checking",
-		Rule: "complete over values: for every dispatch path (SSSE3 assembly, non-SSSE3 assembly via the forced flag, portable Go byte kernels, the little-endian cast path, the []T kernels used by Matrix with the dispatch flag on and off, and the real non-amd64 dispatch (byte and []T kernels) in a GOARCH=386 worker) x every constant c (65536) x a buffer holding every word value (65536) x {Mul, MulAndAdd against a prior content}. " +
+		Rule: "(plus, per dispatch path, fresh processes - normal and race-detector build - in which eight goroutines call both kernels at once on buffers of their own, every answer against the reference) complete over values: for every dispatch path (SSSE3 assembly, non-SSSE3 assembly via the forced flag, portable Go byte kernels, the little-endian cast path, the []T kernels used by Matrix with the dispatch flag on and off, and the real non-amd64 dispatch (byte and []T kernels) in a GOARCH=386 worker) x every constant c (65536) x a buffer holding every word value (65536) x {Mul, MulAndAdd against a prior content}. " +
 			"Shapes: every even length 0..200 and {65534,65536,65538,131070,131072,131074,262178} x every (src,dst) alignment pair mod 16 (4x4 for the large ones) x 8 constants x placement against the upper / lower PROT_NONE guard page, and (lengths <= 200) as a window of a larger area whose capacity extends beyond the length, plus in==out aliasing; a history of 2 x CPUs + 3 calls outside the contract (buffers of different lengths) per length in {2,34,4096,65536} followed by valid calls; every ordered triple of lengths 32+t (t = 2..30) and every ordered pair of lengths 2..66 back to back in one goroutine with garbage collection off; short shapes also with a low-entropy input (zero except the first / last word and the last word of every 16-byte block). Environment: every constant x a 34-byte buffer on every path in a FRESH process whose HOME / XDG_* / TMPDIR / working directory are scratch directories, then again for every file that process left there x 11 mutations of it (truncated, emptied, garbled, grown, replaced by a directory, removed), and under 13 settings of environment variables a Go program may look at (GODEBUG cpu switches, GOMAXPROCS, GOGC, locale, ...). " +
 			"Oracle: out[i]==ref(c,in[i]) (xor prior); input unchanged; guard pages (faults become panics via SetPanicOnFault) and canary bytes detect any access outside the buffers. non-trivial = every executed case",
 		Assumptions: []string{"'no SSSE3' is simulated by forcing the dispatch flag (build-tagged hook)", "big-endian hosts are reached only through the exported portable byte kernels"},
